@@ -22,10 +22,12 @@
   `C15_tables_coded_first`.
 
   Hypotheses beyond the property's wording:
-  * the unchanged tree VIOLATES the contract at the places listed in `knownElementOffences` and
-    `knownValueOffences`; each is replayed on the real pair by the harness (PENDING_FINDINGS).  The full
-    statements are kept as `C15_*_full : Prop`, refuted by `C15_*_counterexample`, and the `_partial`
-    theorems say that these are the ONLY exceptions.  The attribute clause (`C15_attributes`) holds in full.
+  * the unchanged tree VIOLATES the element clause of the contract at the places listed in
+    `knownElementOffences`; each is replayed on the real pair by the harness (PENDING_FINDINGS).  The full
+    statement is kept as `C15_elements_full : Prop`, refuted by `C15_elements_counterexample`, and
+    `C15_elements_partial` says that these are the ONLY exceptions.  The attribute clause (`C15_attributes`)
+    and the value clause for everything a scanner path produces (`C15_values`) hold in full
+    (`C15_values_full`, over everything the writer could write, fails only at the writer-only combination).
   * `writerOnlyOffences`, `writerOnlyValueOffences`: combinations girwriter.py could write but no scanner
     path produces (fields of an interface; transfer-ownership="container" on an instance parameter); the
     harness checks on every produced GIR that they do not occur.
@@ -64,7 +66,8 @@ def irregularEnds : List (List String × List String) := [
     introspectable test of start_member, the "function pointer member of a union / boxed / interface is a gpointer,
     its <callback> skipped" branch of start_function (the model takes its guard — the field has no type yet — as
     true: a written field has ONE child describing its type; either way the parser ends in PASSTHROUGH, with a
-    warning when the guard fails) and the PASSTHROUGH branch of start_element_handler, statement by statement, as mirrored by
+    warning when the guard fails), the comparison chain on `when` of start_glib_signal with its default branch
+    (what `elseBranchByDesign` relies on) and the PASSTHROUGH branch of start_element_handler, statement by statement, as mirrored by
     `stateSwitch`, `startEv`, `endEv` -/
 def expectedHelpers : List (String × List String) := [
   ("state_switch", ["g_assert (ctx->state != newstate)", "ctx->prev_state = ctx->state", "ctx->state = newstate",
@@ -89,8 +92,11 @@ def expectedHelpers : List (String × List String) := [
     "if (introspectable && atoi (introspectable) == 0)", "state_switch (ctx, STATE_PASSTHROUGH)", "return TRUE"]),
   ("start_function:early-take:callback", ["states UNION_FIELD BOXED_FIELD INTERFACE_FIELD",
     "if ctx->current_typed && ctx->current_typed->type == G_IR_NODE_FIELD && ((GIrNodeField *)ctx->current_typed)->type == NULL",
-    "((GIrNodeField *)ctx->current_typed)->type = parse_type (ctx, \"gpointer\")", "state_switch (ctx, STATE_PASSTHROUGH)",
-    "return TRUE"]),
+    "((GIrNodeField *)ctx->current_typed)->type = parse_type (ctx, \"gpointer\")", "ctx->current_typed = NULL",
+    "state_switch (ctx, STATE_PASSTHROUGH)", "return TRUE"]),
+  ("start_glib_signal:when", ["if (when == NULL || g_ascii_strcasecmp (when, \"LAST\") == 0) signal->run_last = TRUE",
+    "else if (g_ascii_strcasecmp (when, \"FIRST\") == 0) signal->run_first = TRUE",
+    "else if (g_ascii_strcasecmp (when, \"CLEANUP\") == 0) signal->run_cleanup = TRUE", "else signal->run_last = TRUE"]),
   ("start_element_handler:passthrough", ["ctx->unknown_depth += 1", "return"])]
 
 /-- The hand-written half of the model is the source's: the irregular rows of end_element_handler
@@ -197,13 +203,12 @@ def ignoredPairs : List (String × String) :=
    ("instance-parameter", "scope"), ("instance-parameter", "closure"), ("instance-parameter", "destroy"),
    ("instance-parameter", "skip")]
 
-/-- The offence of the UNCHANGED tree:
-    * when="must-collect" (ast.SIGNAL_MUST_COLLECT, written verbatim from the runtime dump, which reports it for a
-      signal that runs in none of the three phases) matches none of the comparisons of start_glib_signal (LAST,
-      FIRST, CLEANUP): no run flag is set, validate_signal_blob demands exactly one, and the compiler dies
-      validating its own output.  (Until start_glib_signal got an explicit CLEANUP test the final `else` silently
-      made it RUN_CLEANUP; there is no value left that reaches an `else` on purpose.) -/
-def knownValueOffences : List (String × String × String × String) :=
+/-- a value that reaches the final `else` of a comparison chain ON PURPOSE: start_glib_signal tests LAST, FIRST,
+    CLEANUP and lets everything else run LAST, "as if the attribute were absent".  when="must-collect"
+    (ast.SIGNAL_MUST_COLLECT, written verbatim from the runtime dump, which reports it for a signal that names none
+    of the three phases) is recognised that way, as the default phase: G_SIGNAL_MUST_COLLECT is not a run phase and
+    SignalBlob has no bit for it, and a signal blob must name exactly one phase (validate_signal_blob). -/
+def elseBranchByDesign : List (String × String × String × String) :=
   [("glib:signal", "start_glib_signal", "when", "must-collect")]
 
 /-- What girwriter.py could write but the scanner never produces: transfer-ownership="container" on an
@@ -292,7 +297,7 @@ def ignoredPairsN : List (Nat × Nat) :=
   (31485119747228842716540428525926096580142450, 26476790205501038956), (31485119747228842716540428525926096580142450, 1595101114469),
   (31485119747228842716540428525926096580142450, 100042842666529381), (31485119747228842716540428525926096580142450, 100316638258294649),
   (31485119747228842716540428525926096580142450, 6231386480)]
-def knownValueOffencesN : List (Nat × Nat × Nat × Nat) :=
+def elseBranchByDesignN : List (Nat × Nat × Nat × Nat) :=
   [(434516328808026195815719276, 126399454549389185839645904802390289047916, 6298297710, 113104018120924284523360117620)]
 def writerOnlyValueOffencesN : List (Nat × Nat × Nat × Nat) :=
   [(31485119747228842716540428525926096580142450, 9108040582535409498726417970461977819827324383652908131698,
@@ -318,7 +323,7 @@ theorem C15_constants_coded :
     ∧ allOffencesN = allOffences.map codeOffence
     ∧ handlersN = handlers.map code2
     ∧ ignoredAttrsN = ignoredAttrs.map code ∧ ignoredPairsN = ignoredPairs.map code2
-    ∧ knownValueOffencesN = knownValueOffences.map code4
+    ∧ elseBranchByDesignN = elseBranchByDesign.map code4
     ∧ writerOnlyValueOffencesN = writerOnlyValueOffences.map code4 := by
   decide +kernel
 
@@ -407,26 +412,34 @@ theorem C15_attributes : unfetchedNotByDesign = [] := by
 
 /-! ### C15_values -/
 
-def offValuesN : List (Nat × Nat × Nat × Nat) :=
-  offValuesG Gen.c15PyValuesG Gen.c15PyDynamicG Gen.c15CLiteralsG cZero cOne handlersN
+def offValuesNotByDesign : List (Nat × Nat × Nat × Nat) :=
+  (offValuesG Gen.c15PyValuesG Gen.c15PyDynamicG Gen.c15CLiteralsG cZero cOne handlersN).filter fun x =>
+    !elseBranchByDesignN.contains x
 
-def C15_values_full : Prop := offValuesN = []
+/-- the value clause over everything girwriter.py COULD write -/
+def C15_values_full : Prop := offValuesNotByDesign = []
 
 /-- Every enumerated attribute value GIRWriter can produce (string constants in girwriter.py and the
     PARAM_TRANSFER_*/PARAM_DIRECTION_*/PARAM_SCOPE_*/SIGNAL_* constants of ast.py, minus what an enclosing
-    `!=` test excludes) is one of the literals the handling start_* function compares that attribute with —
-    no value reaches a default — EXCEPT exactly the listed value, and the one no scanner path produces. -/
-theorem C15_values_partial : offValuesN = knownValueOffencesN ++ writerOnlyValueOffencesN := by
+    `!=` test excludes) is one of the literals the handling start_* function compares that attribute with, or
+    reaches a default on purpose (`elseBranchByDesign`) — EXCEPT exactly the one combination no scanner path
+    produces. -/
+theorem C15_values_partial : offValuesNotByDesign = writerOnlyValueOffencesN := by
   decide +kernel
 
 theorem C15_values_counterexample : ¬ C15_values_full := by
   unfold C15_values_full; rw [C15_values_partial]; decide
 
+/-- … so for everything a scanner path produces (hypothesis `writerOnlyValueOffences`, checked by the harness on
+    every GIR) the value clause holds in full: no offence of the real pair is left. -/
+theorem C15_values : (offValuesNotByDesign.filter fun x => !writerOnlyValueOffencesN.contains x) = [] := by
+  rw [C15_values_partial]; decide +kernel
+
 /-- … and, against the written contract docs/gir-1.2.rnc: every such value is one the schema allows for
     that attribute, except when="must-collect" (the schema lists first / last / cleanup only). -/
 theorem C15_values_in_schema :
     notInSchemaG Gen.c15PyValuesG Gen.c15PyDynamicG Gen.c15RncValuesG
-      = knownValueOffencesN.map (fun x => (x.1, x.2.2.1, x.2.2.2)) := by
+      = elseBranchByDesignN.map (fun x => (x.1, x.2.2.1, x.2.2.2)) := by
   decide +kernel
 
 /-! ### C15_passthrough_balanced -/
